@@ -184,6 +184,9 @@ def run_check(check, tier, seed, out=sys.stdout):
 def _run_check(check, tier, seed, out, t0):
     from . import impl
     impl.assert_repo()
+    import glob
+    for old in glob.glob(os.path.join(VERIF, 'replays', check.id + '-*.json')):
+        os.unlink(old)
     base = getattr(check, 'chunk', 200)
     csize = base + seed % 7
     stats = {'states': 0, 'tr': 0, 'nt': set(), 'outs': set(), 'cnt': {},
